@@ -23,6 +23,7 @@ type chooser struct {
 	bad    bool // loads that fail in Provision may occur
 	ph     bool // every dial address is a request placeholder
 	areal  bool // a configuration whose active checks the schedule drives was loaded
+	afull  bool // …one of them with expectations about the answer (expect_status / expect_body / max_size / headers)
 	bg     bool // a configuration with free-running background checks was loaded
 	dyn    bool // a configuration with a dynamic source was loaded
 	lat    bool // a configuration with unhealthy_latency was loaded: no clock steps from now on
@@ -111,7 +112,27 @@ func (c *chooser) loadStep(K int) string {
 			ks = append(ks, (start+i)%K)
 		}
 		c.areal = true
-		return fmt.Sprintf("L:%s:%d:%d:%d:%d:%d:%d:0:%d", keysText(ks), p, d, m, rt, q, s, 4+r.Intn(4))
+		text := fmt.Sprintf("L:%s:%d:%d:%d:%d:%d:%d:0:%d", keysText(ks), p, d, m, rt, q, s, 4+r.Intn(4))
+		if r.Chance(1, 2) {
+			// …with expectations about the answer: expect_status, expect_body, max_size, headers
+			es := 0
+			if r.Chance(2, 3) {
+				es = expectPick[r.Intn(len(expectPick))]
+			}
+			eb, mx, hd := 0, 0, 0
+			if r.Chance(1, 2) {
+				eb = 1
+			}
+			if r.Chance(1, 3) {
+				mx = []int{1, 2, 3, 64}[r.Intn(4)]
+			}
+			if r.Chance(1, 2) {
+				hd = 1
+			}
+			c.afull = true
+			text += fmt.Sprintf(":%d:%d:%d:%d", es, eb, mx, hd)
+		}
+		return text
 	}
 	if r.Chance(1, 6) {
 		return text + fmt.Sprintf(":%d:8", r.Intn(3)) // stream_close_delay not set
@@ -125,6 +146,9 @@ func (c *chooser) loadStep(K int) string {
 	}
 	return text
 }
+
+var expectPick = []int{2, 2, 3, 4, 5, 200, 201, 301, 403, 404, 503}
+var probeStatusPick = []int{200, 200, 201, 301, 404, 503}
 
 var answerPick = []string{"ok", "ok", "e5", "e5", "c404", "c429", "c502", "c503", "rst", "rst", "rst", "rst", "rst", "hup", "pan", "her"}
 
@@ -205,6 +229,27 @@ func (c *chooser) next(k *kase) (step, bool) {
 			case x < 78 && c.areal && live && k.cur.st.areal:
 				if r.Chance(1, 2) {
 					text = "K"
+				} else if c.afull && r.Chance(2, 3) {
+					status, body, needs := probeStatusPick[r.Intn(len(probeStatusPick))], r.Intn(3), r.Intn(2)
+					if r.Chance(1, 2) {
+						// an answer the loaded handler is content with (upstreams come back up)
+						switch e := k.cur.st.aExp; {
+						case e == 0 || e == 2 || e == 403:
+							status = 200 + r.Intn(2)
+						case e < 100:
+							status = map[int]int{3: 301, 4: 404, 5: 503}[e]
+						default:
+							status = e
+						}
+						body = 1 + r.Intn(2)
+						if !k.cur.st.aHdr {
+							needs = 0
+						}
+						if k.cur.st.aExp == 403 || (k.cur.st.aExp == 4 && r.Chance(1, 2)) {
+							needs = 1 // a 403 comes only from an endpoint that misses its header
+						}
+					}
+					text = fmt.Sprintf("H:%d:%d:%d:%d", r.Intn(k.K), status, body, needs)
 				} else {
 					key := r.Intn(k.K)
 					if k.backends[key].hbad.Load() {
